@@ -44,6 +44,9 @@ FUNC = [("make_part_file", "writer.make_part_file"), ("write_common_metadata", "
 
 
 def p_partfiles(ctx):
+    if ctx.prop in ("C02", "C07"):          # the option-plumbing call-site obligations ride along where this part is wired
+        from ._options import p_options
+        p_options(ctx)
     prop = ctx.prop if ctx.prop in PARTS else "C02"
     ctx.assumptions += [a for a in M.ASSUMED if a not in ctx.assumptions]
     sel = SELECT[prop]
